@@ -1,3 +1,3 @@
 package main
 
-func checkLemmas(w *World, ps *PropSpec, tier string, seed int) []*Result { return nil }
+func checkLemmas(w *World, ps *PropSpec, tier string, seed int) []*Result { return checkImmutable(w) }
